@@ -52,8 +52,8 @@ theorem take_minus (a b : Str) (n : Nat) (h : b.length = n) : (a ++ b).take ((a 
 
 /-- **`moto_lst2bas name.lst,a`** (extension and option in either case): the listing `name.lst` is read, `name.bas` —
     beside it, same stem as typed — receives its ASCII BASIC form, nothing else is written -/
-theorem lst2bas_ascii (w : Str → Option Str) (stem ext opt text : Str) (hext : upper ext = str "LST") (hopt : upper opt = str ",A")
-    (hw : w (stem ++ 46 :: ext) = some text) :
+theorem lst2bas_ascii (w : Str → Option Listing) (stem ext opt text : Str) (hext : upper ext = str "LST") (hopt : upper opt = str ",A")
+    (hw : w (stem ++ 46 :: ext) = some (.text text)) :
     lst2basOne w (stem ++ 46 :: (ext ++ opt)) = { writes := [(stem ++ 46 :: str "bas", toAsciiBasic text)] } := by
   have hd : 46 ∉ ext ++ opt := by
     intro h
@@ -78,8 +78,8 @@ theorem lst2bas_ascii (w : Str → Option Str) (stem ext opt text : Str) (hext :
   simp
 
 /-- **`moto_lst2bas name.lst`**: `name.bas` beside the listing receives the tokenized program -/
-theorem lst2bas_tokenized (w : Str → Option Str) (stem ext text : Str) (b : Bytes) (hext : upper ext = str "LST")
-    (hw : w (stem ++ 46 :: ext) = some text) (hc : Basic.convert text = some b) :
+theorem lst2bas_tokenized (w : Str → Option Listing) (stem ext text : Str) (b : Bytes) (hext : upper ext = str "LST")
+    (hw : w (stem ++ 46 :: ext) = some (.text text)) (hc : Basic.convert text = some b) :
     lst2basOne w (stem ++ 46 :: ext) = { writes := [(stem ++ 46 :: str "bas", b)] } := by
   have hd : 46 ∉ ext := not_dot_of_upper hext (by decide)
   have hel : ext.length = 3 := by have := congrArg List.length hext; simpa [upper, str] using this
@@ -94,8 +94,8 @@ theorem lst2bas_tokenized (w : Str → Option Str) (stem ext text : Str) (b : By
   simp
 
 /-- … or, when a line of the listing carries no number, `name.bas` is left empty and the run ends with a `ValueError` -/
-theorem lst2bas_tokenized_refused (w : Str → Option Str) (stem ext text : Str) (hext : upper ext = str "LST")
-    (hw : w (stem ++ 46 :: ext) = some text) (hc : Basic.convert text = none) :
+theorem lst2bas_tokenized_refused (w : Str → Option Listing) (stem ext text : Str) (hext : upper ext = str "LST")
+    (hw : w (stem ++ 46 :: ext) = some (.text text)) (hc : Basic.convert text = none) :
     lst2basOne w (stem ++ 46 :: ext)
       = { writes := [(stem ++ 46 :: str "bas", [])], err := some (.valueError "No line number in this line") } := by
   have hd : 46 ∉ ext := not_dot_of_upper hext (by decide)
@@ -136,5 +136,27 @@ theorem runSeq_ok (one : Str → Out) (s : Str) (rest : List Str) (h : (one s).e
 theorem runSeq_fail (one : Str → Out) (s : Str) (rest : List Str) (e : PyErr) (h : (one s).err = some e) :
     runSeq one (s :: rest) = one s := by
   simp [runSeq, h]
+
+/-- every source converts: the run writes the results of all of them, in the order given, and returns 0 -/
+theorem runSeq_all_ok (one : Str → Out) : ∀ (srcs : List Str), (∀ s ∈ srcs, (one s).err = none) →
+    runSeq one srcs = { writes := srcs.flatMap (fun s => (one s).writes), err := none }
+  | [], _ => rfl
+  | s :: rest, h => by
+    rw [runSeq_ok one s rest (h s (by simp)), runSeq_all_ok one rest (fun x hx => h x (by simp [hx]))]
+    simp
+
+/-- the first source that fails ends the run: the results of the sources before it and what the failing one left are written,
+    the sources after it are not touched, the run ends with its error -/
+theorem runSeq_first_failure (one : Str → Out) (s : Str) (e : PyErr) (post : List Str) (hs : (one s).err = some e) :
+    ∀ (pre : List Str), (∀ x ∈ pre, (one x).err = none) →
+    runSeq one (pre ++ s :: post) = { writes := pre.flatMap (fun x => (one x).writes) ++ (one s).writes, err := some e }
+  | [], _ => by
+    simp only [List.nil_append, List.flatMap_nil]
+    rw [runSeq_fail one s post e hs]
+    cases h : one s with
+    | mk w er => rw [h] at hs; simp only at hs; subst hs; rfl
+  | x :: pre, h => by
+    rw [List.cons_append, runSeq_ok one x _ (h x (by simp)), runSeq_first_failure one s e post hs pre (fun y hy => h y (by simp [hy]))]
+    simp
 
 end Moto.Conv
